@@ -2,16 +2,17 @@
 (* The result contract of SNF on all 2x2 and 2x3 integer matrices with entries -2..2: the diagonal
    defined through gcds of minors satisfies the contract, and it is the only diagonal that does. *)
 EXTENDS SNF, TLC
+CONSTANTS ColSet, XMax, YMax
 VARIABLE k
 V == -2..2
-Inputs == UNION {{[m |-> 2, n |-> c, a |-> a] : a \in [1..2 -> [1..c -> V]]} : c \in 2..3}
+Inputs == UNION {{[m |-> 2, n |-> c, a |-> a] : a \in [1..2 -> [1..c -> V]]} : c \in ColSet}
 Diag2(A, x, y) == Mat(A.m, A.n, LAMBDA i, j : IF i # j THEN 0 ELSE IF i = 1 THEN x ELSE y)
 RefD(A) == LET g1 == MinorGcd(A, 1)  g2 == MinorGcd(A, 2) IN Diag2(A, g1, IF g1 = 0 THEN 0 ELSE g2 \div g1)
 Chain(D) == <<IF D.a[1][1] = 0 THEN 0 ELSE D.a[2][2] \div D.a[1][1]>>
 AllOK == \A A \in Inputs :
            /\ DiagOK(RI, RefD(A), Chain(RefD(A))) /\ MinorsOK(A, RefD(A))
            /\ RankOf(RI, RefD(A)) = RankByMinors(RI, A)
-           /\ \A x \in 0..8, y \in 0..16 : (DiagOK(RI, Diag2(A, x, y), Chain(Diag2(A, x, y))) /\ (x = 0 \/ y % x = 0) /\ MinorsOK(A, Diag2(A, x, y)))
+           /\ \A x \in 0..XMax, y \in 0..YMax : (DiagOK(RI, Diag2(A, x, y), Chain(Diag2(A, x, y))) /\ (x = 0 \/ y % x = 0) /\ MinorsOK(A, Diag2(A, x, y)))
                                             => Diag2(A, x, y) = RefD(A)
 Init == k = 0
 Next == FALSE /\ k' = k
